@@ -149,7 +149,7 @@ pub open spec fn typed_data(data: Seq<((Addr, Addr), AllowanceResponse)>, l: Seq
 @prefix
     broadcast use ax_path, ax_utf8, ax_ser, ax_pair_kb, addr_ext, ax_listing, ax_bytes_lt_irrefl, ax_bytes_lt_trans, ax_parse_0_14;
     let ghost s0 = deps.storage.view();
-@insert_before "let data = ALLOWANCES" 1
+@insert_before "~ALLOWANCES" 1
     let ghost s1 = deps.storage.view();
     let ghost l = listing(s1, "allowance"@, Seq::<u8>::empty(), false);
     proof {
